@@ -79,9 +79,10 @@ func genTopo(tp *simkit.Tape, small bool) topo {
 		maxP = 3
 	}
 	np := tp.Range(1, maxP)
-	recvPool := []string{"rcv/1", "rcv/2", "shr/1"}
+	// (names that differ only by letter case are different components)
+	recvPool := []string{"rcv/1", "rcv/2", "shr/1", "rcv/x", "rcv/X"}
 	procPool := []string{"proc/1", "proc/2", "ropr/1"}
-	expPool := []string{"exp/1", "exp/2", "mexp/1"}
+	expPool := []string{"exp/1", "exp/2", "mexp/1", "exp/x", "exp/X"}
 	connPool := []string{"fwd/1", "conv/1", "conv/2", "l2m/1", "forward/1", "asym/1", "rnd/1", "rnd/2", "rt/1", "rt/1"}
 	rtMode = tp.Draw(7)
 	// the support matrix of connector type "rnd" in this run: every cell drawn on its own (about 2 in 3 supported)
